@@ -7,14 +7,15 @@ REG = dict(
     engine="E3-sched",
     technique="stateless deviation-bounded exhaustive exploration of thread schedules and timer firings of the real nREPL connection/worker/flusher threads under a controlled scheduler, with replay",
     text="The real nrepl.rs code (Connection, handle_message, session_worker, spawn_output_flusher, eval_code_in_namespace and the interpreter loop) runs under a controlled "
-         "scheduler whose scheduling points are every channel send/recv/recv_timeout, thread spawn/join, the per-step interrupt check of the interpreter and the output buffer "
-         "locks; the flusher's 100 ms timer is a data choice. For seven client scenarios (one/two sessions, printing evals, failing eval, queued completions/lookup, close, clone after close, "
-         "malformed requests) EVERY schedule with at most 2 (quick) / 3 (thorough) deviations (preemptions or timer firings) is executed, one process each, and checked: exactly one "
+         "scheduler whose scheduling points are every channel send/recv/recv_timeout, thread spawn/join, the per-step interrupt check of the interpreter and every lock() of the "
+         "mutexes nrepl.rs uses (output buffers, interrupt-flag table); the flusher's 100 ms timer is a data choice. For seven client scenarios (one/two sessions, printing evals, failing eval, queued completions/lookup, close, clone after close, "
+         "malformed requests) EVERY schedule with at most 2 (quick) / 3 (thorough) deviations (preemptions or timer firings) is executed and checked: exactly one "
          "`done` per request id and nothing after it, stdout/stderr chunks complete, in order and before `done`, sessions do not see each other's definitions, no deadlock. "
          "Exhaustive within the deviation bound, the bound completed is reported.",
     note="Scheduling is sequentially consistent; the TCP reader/writer threads are represented by the client task and the response channel (the writer only forwards the channel in "
          "order). Real time is abstracted: a timer may fire at any point. Scenarios are small (evals of a few steps); longer programs and more than two sessions are not covered. "
-         "Determinism of replay is demonstrated at the start of every run.",
+         "Determinism of replay is demonstrated at the start of every run. Executions run one after the other in warm server processes (all threads of an execution unwind and exit at its "
+         "end); probe prefixes and every 97th execution are repeated in a forked child of their own and must give identical traces and responses.",
     design_ref="DESIGN.md §6 C30",
 )
 
@@ -130,7 +131,7 @@ def check_exec(ctx, name, scn, res, prefix, cost):
 
 def run(ctx):
     bound = 2 if ctx.quick else 3
-    budget = float(os.environ.get("GV_SCHED_BUDGET", 45 if ctx.quick else 1500))
+    budget = float(os.environ.get("GV_SCHED_BUDGET", 60 if ctx.quick else 1500))
     horizon = 600
     ctx.bound("deviation_bound_requested", bound)
     only = os.environ.get("GV_C30_ONLY")
@@ -177,11 +178,14 @@ def run(ctx):
     # pass 2: deeper bounds, in priority order, within the time budget
     final = dict(first)
     for depth in range(2, bound + 1):
-        for idx, name in enumerate(names):
+        # expected number of schedules: bound-1 count to the power of the depth; smallest first, shares in proportion
+        size = lambda n: max(first[n].execs, 2) ** depth
+        order = sorted(names, key=size)
+        for idx, name in enumerate(order):
             left = t0 + budget - time.time()
             if left <= 0:
                 break
-            share = time.time() + left / (len(names) - idx)
+            share = time.time() + left * size(name) / sum(size(n) for n in order[idx:])
             ex = explore(name, depth, share)
             if ex.completed_bound >= depth:
                 completed[name] = depth
@@ -191,6 +195,7 @@ def run(ctx):
     for name in names:
         ex = final[name]
         total_execs += ex.execs
+        ctx.cov["cross_checked_in_fresh_process"] = ctx.cov.get("cross_checked_in_fresh_process", 0) + ex.cross_checked
         total_points += ex.points
         outcomes += len(ex.outcomes)
         ctx.outcome(f"{name}: executions", ex.execs)
